@@ -370,6 +370,11 @@ func decodeKeyNotFound(b unsafe.Pointer, cursor int64) (int64, *structFieldSet, 
 }
 
 func decodeKey(d *structDecoder, buf []byte, cursor int64) (int64, *structFieldSet, error) {
+	cursor = skipWhiteSpace(buf, cursor)
+	if buf[cursor] != '"' {
+		// an object key is a string: the string decoder alone would accept null
+		return 0, nil, errors.ErrInvalidBeginningOfValue(buf[cursor], cursor)
+	}
 	key, c, err := d.stringDecoder.decodeByte(buf, cursor)
 	if err != nil {
 		return 0, nil, err
@@ -652,6 +657,10 @@ func decodeKeyNotFoundStream(s *Stream, start int64) (*structFieldSet, string, e
 }
 
 func decodeKeyStream(d *structDecoder, s *Stream) (*structFieldSet, string, error) {
+	if s.skipWhiteSpace() != '"' {
+		// an object key is a string: the string decoder alone would accept null
+		return nil, "", errors.ErrInvalidBeginningOfValue(s.char(), s.totalOffset())
+	}
 	key, err := d.stringDecoder.decodeStreamByte(s)
 	if err != nil {
 		return nil, "", err
